@@ -1617,7 +1617,7 @@ CMR_ERROR CMRlistmat64Insert(CMR* cmr, ListMat64* listmatrix, size_t row, size_t
   assert(cmr);
   assert(listmatrix);
   assert(row < listmatrix->numRows);
-  assert(row < listmatrix->numColumns);
+  assert(column < listmatrix->numColumns);
 
   CMRdbgMsg(10, "CMRlistmat64Insert for %ld of %ld possible nonzeros.\n", listmatrix->numNonzeros,
     listmatrix->memNonzeros);
@@ -1723,7 +1723,7 @@ CMR_ERROR CMRlistmatGMPInsert(CMR* cmr, ListMatGMP* listmatrix, size_t row, size
   assert(cmr);
   assert(listmatrix);
   assert(row < listmatrix->numRows);
-  assert(row < listmatrix->numColumns);
+  assert(column < listmatrix->numColumns);
 
   CMRdbgMsg(10, "CMRlistmatGMPInsert for %ld of %ld possible nonzeros.\n", listmatrix->numNonzeros,
     listmatrix->memNonzeros);
